@@ -108,6 +108,14 @@ func init() {
 // each with its own plugin instance started from the same config pointer,
 // plus the probe actions around the plugin.
 func startReal(plugin string, selectors []string, capacity int, parallel bool) (*realRun, error) {
+	return startRealActs([]map[string]any{{"type": plugin, "fields": selectors}}, capacity, parallel, nil)
+}
+
+// startRealActs is startReal for an arbitrary action chain (history clause:
+// earlier real actions / the harness mutator, the recorder, then the plugin
+// under test). hh (may be nil) is what the harness-side actions of that chain
+// read and write; it is registered under the pipeline's name before Start.
+func startRealActs(acts []map[string]any, capacity int, parallel bool, hh *histHooks) (*realRun, error) {
 	settings := &pipeline.Settings{
 		Capacity:            capacity, // small pools recycle event objects (and their insane-json roots) quickly
 		MaintenanceInterval: time.Second * 5,
@@ -145,9 +153,11 @@ func startReal(plugin string, selectors []string, capacity int, parallel bool) (
 		PluginRuntimeInfo: &pipeline.PluginRuntimeInfo{Plugin: out},
 	})
 
-	acts := []map[string]any{{"type": plugin, "fields": selectors}}
 	if parallel {
 		acts = []map[string]any{{"type": "c18_probe_in"}, acts[0], {"type": "c18_probe_out"}}
+	}
+	if hh != nil {
+		histHookReg.Store(name, hh)
 	}
 	actions, err := json.Marshal(acts)
 	if err != nil {
@@ -158,12 +168,14 @@ func startReal(plugin string, selectors []string, capacity int, parallel bool) (
 		return nil, err
 	}
 	if err := fd.SetupActions(p, fd.DefaultPluginRegistry, sj, nil); err != nil {
+		histHookReg.Delete(name)
+		probes.Delete(name)
 		return nil, fmt.Errorf("SetupActions: %w", err)
 	}
 
 	rr.p, rr.input = p, in
 	out.SetOutFn(func(e *pipeline.Event) {
-		s := e.Root.EncodeToString()
+		s := safeEncode(e.Root) // EncodeToString, unless the tree is so broken that Encode would never return
 		rr.mu.Lock()
 		if _, dup := rr.outs[e.Offset]; dup {
 			rr.outs[-e.Offset-1] = s // an event seen twice: keep it visible
@@ -231,6 +243,7 @@ func (rr *realRun) feedParallel(events []*eventCase, feeders, sources int, watch
 func (rr *realRun) stop() {
 	rr.p.Stop()
 	probes.Delete(rr.p.Name)
+	histHookReg.Delete(rr.p.Name)
 }
 
 func (rr *realRun) out(i int) (string, bool) {
